@@ -35,6 +35,8 @@ package varmq
 //@ type worker: ghost $nodes Int
 //@ type worker: ghost $dispatched Int
 //@ type worker: ghost $freed Int
+//@ type worker: guarded_by mx: eventLoopSignal, errorChan, tickers, ctx, cancel
+//@ type worker: frozen workerFunc, pool, waiters, metrics, Configs
 // $disp: dispatcher goroutines reading w.eventLoopSignal (they return when that channel is closed)
 // $listeners: context listeners on w.ctx that have not fired yet; $armed: asynchronous Stop() calls triggered by cancel() and not yet run
 // $reapers: live idle-worker reapers; $nodes: pool goroutines started; $dispatched: jobs handed to a pool node; $freed: nodes given back
@@ -277,6 +279,9 @@ package varmq
 //@   requires w != nil && w.waiters != nil && PoolOK(w) && QM(w) && (forall q ref {$lenOf(q)} :: $lenOf(q) >= 0)
 //@   modifies w.curProcessing, $lenOf, $alloc, linkedlist.Node.next, linkedlist.Node.prev, w.pool.List.len, w.pool.List.$at, w.pool.List.$pos, w.pool.List.$in, key CH:sent<, key CH:rcvd<, key CHV:<, w.$nodes, w.$dispatched, w.$freed
 //@   rely  PoolOK(w) && (forall q ref {$lenOf(q)} :: $lenOf(q) >= 0)
+// B2-lite: while the caller is parked in the condition wait, other goroutines may issue lifecycle calls: the status it finds afterwards is arbitrary
+//@   modifies [B2] w.status
+//@   ensures [B2] [b2-range] 0 <= w.status && w.status <= stopped
 //@   ensures [barrier-running] w.status == running ==> @sumLen(w.queues.Manager.items, len(w.queues.Manager.items)) <= 0 && w.curProcessing == 0
 //@   ensures [barrier-parked]  (w.status == paused || w.status == stopped) ==> w.curProcessing == 0
 //@   ensures [kept]            PoolOK(w) && (forall q ref {$lenOf(q)} :: $lenOf(q) >= 0)
@@ -310,9 +315,10 @@ package varmq
 //@   props C14 C09 C06
 //@   requires w != nil && w.waiters != nil && PoolOK(w) && QM(w) && (forall q ref {$lenOf(q)} :: $lenOf(q) >= 0) && 0 <= w.status && w.status <= stopped
 //@   modifies w.status, w.curProcessing, $lenOf, $alloc, linkedlist.Node.next, linkedlist.Node.prev, w.pool.List.len, w.pool.List.$at, w.pool.List.$pos, w.pool.List.$in, key CH:sent<, key CH:rcvd<, key CHV:<, w.$nodes, w.$dispatched, w.$freed
-//@   ensures [running]   old(w.status) == running ==> result == nil && w.status == paused && w.curProcessing == 0
-//@   ensures [parked]    (old(w.status) == paused || old(w.status) == stopped) ==> result == nil && w.status == old(w.status) && w.curProcessing == 0
-//@   ensures [initiated] old(w.status) == initiated ==> result == ErrNotRunningWorker && w.status == initiated && w.curProcessing == old(w.curProcessing)
+//@   ensures [SEQ] [running]   old(w.status) == running ==> result == nil && w.status == paused && w.curProcessing == 0
+//@   ensures [SEQ] [parked]    (old(w.status) == paused || old(w.status) == stopped) ==> result == nil && w.status == old(w.status) && w.curProcessing == 0
+//@   ensures [SEQ] [initiated] old(w.status) == initiated ==> result == ErrNotRunningWorker && w.status == initiated && w.curProcessing == old(w.curProcessing)
+//@   ensures [B2] [b2-range]   0 <= w.status && w.status <= stopped && (old(w.status) == initiated ==> result == ErrNotRunningWorker) && (old(w.status) != initiated ==> result == nil)
 //@   ensures [kept]      PoolOK(w) && (forall q ref {$lenOf(q)} :: $lenOf(q) >= 0)
 
 // Resume: Paused -> Running (and the dispatcher is signalled); Initiated -> start(); Running -> ErrRunningWorker; Stopped -> ErrNotRunningWorker.
@@ -332,7 +338,9 @@ package varmq
 // channels are closed and nil, no dispatcher, no ticker and no idle pool node is left and the context (if any) is cancelled: every
 // goroutine the worker started has been told to exit.
 //@ func worker.Stop
-//@   props C14 C18 C09 C06
+//@   props C14 C18 C09 C06 C14@B2
+// B2-lite (C14): whatever lifecycle calls interleave with the waits inside Stop, a Stop that started from Running/Paused ends in Stopped
+//@   ensures [B2] [b2-stopped] (old(w.status) == running || old(w.status) == paused) ==> result == nil && w.status == stopped
 //@   requires RI_worker(w) && (forall q ref {$lenOf(q)} :: $lenOf(q) >= 0) && (forall t ref {$tickerStopped[t]} :: $tickerStopped[t] >= 0)
 //@   modifies w.status, w.curProcessing, $lenOf, $alloc, linkedlist.Node.next, linkedlist.Node.prev, w.pool.List.len, w.pool.List.$at, w.pool.List.$pos, w.pool.List.$in,
 //@            key CH:sent<, key CH:rcvd<, key CHV:<, w.$nodes, w.$dispatched, w.$freed, w.tickers, $tickerStopped, w.eventLoopSignal, w.errorChan,
@@ -360,7 +368,8 @@ package varmq
 // Restart: from any state the worker ends up Running with fresh channels, exactly one dispatcher, a fresh context (if configured) whose
 // listener is the only one, and nothing left armed that could stop it behind the caller's back.
 //@ func worker.Restart
-//@   props C14 C18 C02 C09
+//@   props C14 C18 C02 C09 C14@B2
+//@   ensures [B2] [b2-running] result == nil ==> w.status == running
 //@   requires RI_worker(w) && (forall q ref {$lenOf(q)} :: $lenOf(q) >= 0) && w.Configs.idleWorkerExpiryDuration >= 0 && len(w.tickers) < MaxInt
 //@   modifies w.status, w.curProcessing, $lenOf, $alloc, linkedlist.Node.next, linkedlist.Node.prev, w.pool.List.len, w.pool.List.$at, w.pool.List.$pos, w.pool.List.$in,
 //@            key CH:sent<, key CH:rcvd<, key CHV:<, w.$nodes, w.$dispatched, w.$freed, w.tickers, w.tickers[**], w.eventLoopSignal, w.errorChan, w.ctx, w.cancel,
